@@ -49,6 +49,10 @@ def sliceFrom {α : Type} (xs : List α) (i : Int) : Option (List α) :=
 def sliceTo {α : Type} (xs : List α) (j : Int) : Option (List α) :=
   if j < 0 ∨ (xs.length : Int) < j then none else some (xs.take j.toNat)
 
+/-- `xs[i] = v` -/
+def setIdx {α : Type} (xs : List α) (i : Int) (v : α) : Option (List α) :=
+  if i < 0 ∨ (xs.length : Int) ≤ i then none else some (xs.set i.toNat v)
+
 /-- `len(xs)` -/
 def len {α : Type} (xs : List α) : Int := (xs.length : Int)
 
